@@ -37,6 +37,21 @@ static std::string run(const sc::Mesh& seed, const Scenario& sc_, const std::str
 }
 namespace simucell3d_verif { void solver_phase(void* s, const char* phase) { if (l3::g_active && (!strcmp(phase, "refine") || !strcmp(phase, "contact") || !strcmp(phase, "remove"))) l3::check_population(static_cast<solver*>(s), phase); } }
 
+static std::string large_cell() {
+    sc::Mesh m = sc::icosphere(6); if (m.nv() < 32768) return "INTERNAL the large seed is not large enough";
+    auto type = sc::make_cell_type(0, 3); cell_ptr c; try { c = sc::make_cell(m, 0, type, true); } catch (std::exception& e) { return std::string("(construction): initialisation-rejected-a-closed-mesh: ") + e.what(); }
+    sc::OracleOpts oo; std::string e = sc::oracle_mesh(*c, oo); if (!e.empty()) { c->clear_data(); return "(after construction): " + e; }
+    double lo = 1e300, hi = 0; for (const edge& ed : c->get_edge_set()) { double d = (c->node_lst_[ed.n1()].pos_ - c->node_lst_[ed.n2()].pos_).norm(); lo = std::min(lo, d); hi = std::max(hi, d); }
+    // stretch the cap z > 0.99 in the plane by up to 45 %: its edges leave the band [0.5 lo, 1.3 hi] upwards
+    for (node& n : c->node_lst_) if (n.is_used_ && n.pos_.dz() > 0.99) { const double w = std::min(1.0, (n.pos_.dz() - 0.99) / 0.005); n.pos_ = vec3(n.pos_.dx() * (1 + 0.45 * w), n.pos_.dy() * (1 + 0.45 * w), n.pos_.dz()); }   // smooth: 45 % at the pole, fading out at the rim of the cap
+    c->update_all_face_normals_and_areas(); local_mesh_refiner lmr(0.5 * lo, 1.3 * hi, false); const size_t before = c->get_nb_of_nodes();
+    try { lmr.refine_mesh(c); } catch (std::exception& ex) { std::string w = ex.what(); c->clear_data(); if (w.rfind("The refinement of the mesh", 0) == 0) return "INTERNAL the pass on the large cell gave up (its own iteration bound): scenario not usable"; return "(refine_mesh on the stretched cap): operation-aborted-with-the-surface-torn-open: " + w.substr(0, 150); }
+    if (c->get_nb_of_nodes() == before) { c->clear_data(); return "INTERNAL the pass on the large cell changed nothing"; }
+    oo.check_cached_geometry = false; e = sc::oracle_mesh(*c, oo); if (!e.empty()) { c->clear_data(); return "(after refine_mesh): " + e; }
+    try { c->rebase(); } catch (std::exception& ex) { c->clear_data(); return std::string("(rebase): rebase-threw-on-a-valid-mesh: ") + ex.what(); }
+    e = sc::oracle_mesh(*c, oo); c->clear_data(); if (!e.empty()) return "(after rebase): " + e; return "";
+}
+
 static void explore(Result& R) {
     const bool th = R.args.thorough();
     auto sd = rx::seeds(th); long unit = 0;   // work units (seed x level) are dealt round-robin to the parallel shards
@@ -57,6 +72,9 @@ static void explore(Result& R) {
         long ops = 0, fn = 0; std::string e = l3::run(s.mesh, sc_, scratch, ops, fn); R["L3_runs"]++; R["L3_oracle_checks"] = l3::g_checks; R["transitions"] += sc_.iters; R["states"] += sc_.iters;
         R.tables["L3_final_node_count"][s.name + "/" + sc_.name] = fn; R.mix(s.name + "/" + sc_.name + "/" + std::to_string(fn) + "/" + l3::g_final_key);
         if (!e.empty()) R.violation("L3|" + clause_of(e.substr(e.find(": ", e.find(" cell ")) == std::string::npos ? 0 : e.find(": ", e.find(" cell ")) + 2)), "seed " + s.name + " scenario " + sc_.name + ": " + e, "level=L3\nseed=" + s.name + "\nscenario=" + sc_.name + "\n"); }
+    // L4: one large cell (40962 nodes, 81920 faces, 122880 edges: beyond what 16-bit / 15-bit counters and 32-bit products of node ids can hold): built, checked, a patch stretched so that a
+    // real pass splits some edges, checked, compacted, checked
+    if (R.args.mine(unit++)) { progress("level=L4\n"); std::string e = large_cell(); R["L4_large_cell_runs"] = 1; R["states"] += 3; R["transitions"] += 3; if (e.rfind("INTERNAL", 0) == 0) R.internal_error = e; else if (!e.empty()) R.violation("L4|" + clause_of(e.substr(e.find("): ") == std::string::npos ? 0 : e.find("): ") + 3)), "icosphere of 40962 nodes: " + e, "level=L4\n"); }
     std::string cmd = "rm -rf '" + scratch + "'"; if (system(cmd.c_str())) {}
     R["traces_validated_against_impl"] = R["transitions"]; R["evaluations"] = R["transitions"]; R["distinct_nontrivial"] = R["states"];
     R.strings["rule"] = "states = distinct canonical cell states (exact serialisation of node slots, face slots, free queues, edge set, cached geometry, phase) reached by breadth-first search over operation histories replayed on the real cell; transitions = operations executed on the real code with the independent topological oracle run after each; L2 adds whole refine_mesh passes with the oracle also run after every operation inside the pass (hook H5); L3 adds solver iterations";
@@ -67,6 +85,7 @@ static void explore(Result& R) {
                      "bounded depth: see L1_states_per_seed / L2_states_per_seed for the depth completed per seed"};
 }
 static int replay(const Replay& rp, Result& R) {
+    if (rp.get("level") == "L4") { std::string a = large_cell(); printf("%s\n", a.c_str()); if (!a.empty()) { R.violation("L4", a, ""); return 1; } return 0; }
     if (rp.get("level") == "L3") { auto sd = rx::seeds(true); std::vector<l3::Scenario> scs = {{"grow", 3.0, 0.05, 5.0, 300}, {"shrink", -0.6, 0.3, 2.0, 300}, {"steady_high_tension", 0.0, 1.0, 1.0, 200}};
         for (auto& s : sd) if (s.name == rp.get("seed")) for (auto& sc_ : scs) if (rp.get("scenario") == sc_.name) { long a, b; std::string e = l3::run(s.mesh, sc_, "build/run/C01-replay", a, b); printf("%s\n", e.c_str()); if (!e.empty()) { R.violation("L3", e, ""); return 1; } }
         return 0; }
